@@ -774,6 +774,8 @@ def expr_str(e, depth=0):
         return "phi(%s)" % " | ".join(expr_str(x, depth + 1) for x in e[2])
     if k == "cycle":
         return "loop(_%d)" % e[1]
+    if k == "uneval":
+        return "uneval(%s)" % "::".join(str(e[1]).split("::")[-3:])
     return "%s" % (k,)
 
 
